@@ -217,13 +217,33 @@ def cut_for(ex, node, ordinal, lspec, it, st):
     else:
         body.assume(z3.And(I >= lo0, I < hi0))
         elem = Val(INT, I)
+    head_snapshot = body.copy()
     outs = []
     for o in ex.assign(node.target, elem, body):
         outs += list(ex.run_block(node.body, o.st))
     results = []
+    hints = lspec.get("hints", {})
+    if not isinstance(hints, dict):
+        hints = {f"h{i}": t for i, t in enumerate(hints)}
     for out in outs:
         if out.kind in ("normal", "continue"):
             s2 = out.st
+            if hints:
+                # proof hints: intermediate facts, each proved (an obligation of its own) and then used
+                sc_h = ex.scope(s2)
+                g = ghosts(s2, processed=P) if unordered else ghosts(s2, idx=I)
+                g["__head__"] = head_snapshot
+                if unordered:
+                    g["elem_key"] = k
+                    if kind == "dict":
+                        g["elem_value"] = v
+                else:
+                    g["elem"] = elem
+                sc_h.ghost = g
+                for hl, ht in hints.items():
+                    hg = spec.sv_bool(ex.subst(ht, extra), sc_h)
+                    ex.oblige(s2, f"{pre}/hint.{hl}", hg)
+                    s2.assume(hg)
             if unordered:
                 after = inv_terms(s2, processed=z3.Store(P, k.v, z3.BoolVal(True)))
             else:
